@@ -237,8 +237,10 @@ def cases(rng, tier):
     for _ in range(10 * mult):
         mode = rng.choice(["adv", "same", "back"])
         (k1, f1), (k2, f2) = chain(2, mode, True)
-        add("engine_restart_" + mode, "eid_engine %s / %s" % (" ".join(life_tokens(k1, f1)), " ".join(life_tokens(k2, f2))),
-            readings=[f1, f2], shard=0, stored=k1 + k2)
+        fl = rng.below(2)
+        add("engine_restart_" + mode + ("_flushed" if fl else ""),
+            "eid_engine %d %s / %s" % (fl, " ".join(life_tokens(k1, f1)), " ".join(life_tokens(k2, f2))),
+            readings=[f1, f2], shard=0, stored=k1 + k2, k1=k1)
     # the epoch itself on shard 0: id 0 is written and regenerated on recovery
     for sh in (0, 1, 1024):
         k1, f1 = finish_script([E, E], 2)
@@ -333,18 +335,17 @@ def _problems(c, impl):
     if line.startswith("eid_raw"):
         return []
     if line.startswith("eid_engine"):
-        m = re.fullmatch(r"Q stored=(\d+) returned=(\d+) x=(\S+) ids=(\S+)", impl)
+        m = re.fullmatch(r"Q stored=(\d+) returned=(\d+) ids=(\S+) order=(\S+)", impl)
         if not m:
             return [(f"unexpected answer {impl}", "crash")]
-        stored, returned, xs, ids = int(m.group(1)), int(m.group(2)), _ids(m.group(3)), _ids(m.group(4))
+        stored, returned, ids, order = int(m.group(1)), int(m.group(2)), _ids(m.group(3)), m.group(4)
         probs = []
         if stored != c.get("stored", stored):
             probs.append((f"{stored} STOREs acknowledged, expected {c.get('stored')}", "crash"))
-        if xs != list(range(stored)):
-            missing = sorted(set(range(stored)) - set(xs))
-            probs.append((f"QUERY returned {returned} of {stored} stored events; missing x = {missing[:6]}", "restart"))
-        if len(set(ids)) != len(ids) or not _strictly_increasing(ids):
-            probs.append((f"event_id column not strictly increasing in append order: {_first_bad(ids)}", "restart"))
+        if returned != stored or len(set(ids)) != stored:
+            probs.append((f"QUERY returned {returned} of {stored} stored events ({len(set(ids))} distinct ids)", "restart"))
+        elif order != "increasing":
+            probs.append(("event_id column does not increase in append order", "restart"))
         return probs
     if line.startswith("eid_synth"):
         parts = impl[2:].split(" / ") if impl.startswith("S ") else None
@@ -446,13 +447,10 @@ def classify(c, impl):
     if outside:
         return "ClockOutsideWindow"
     if tags <= {"restart"} and c["line"].startswith("eid_engine"):
-        # the first reading after the restart against the largest millisecond in the ids the first lifetime produced
-        # (= the ids of the rows x < k1 that came back; rows of the first lifetime are never the dropped ones)
-        m = re.fullmatch(r"Q stored=(\d+) returned=(\d+) x=(\S+) ids=(\S+)", impl)
-        k1 = int(c["line"].split()[1])
-        xs, ids = _ids(m.group(3)), _ids(m.group(4))
-        first = [i for x, i in zip(xs, ids) if x < k1]
-        if first and reads[1] and reads[1][0] <= max((i >> (SHB + SQB)) + E for i in first):
+        # the first reading after the restart against the last millisecond of the first lifetime, which made k1
+        # calls on a non-decreasing script (so it used exactly its first k1 readings)
+        k1 = c.get("k1", int(c["line"].split()[2]))
+        if reads[0] and reads[1] and reads[0][:k1] == sorted(reads[0][:k1]) and reads[1][0] <= reads[0][k1 - 1]:
             return "RestartClockNotAdvanced"
         return None
     if tags <= {"restart"}:
